@@ -87,6 +87,9 @@ def fixed_corpus():
     add(D([A2, B2, TRA], cross('ABR', 'AR')))
     add(D([A3, TRA], cross('AR', 'R')))
     add(D([A2, B2, TRA, TRB], cross('ABRS', 'RS')))
+    # two window factors, the first implied (no variables), the second constrained / crossed
+    add(D([A2, B2, TRA, TRB], cross('ABRS', 'AB', [['AtMostKInARow', 2, 'S', 's0']])))
+    add(D([A2, B2, TRA, TRB], cross('ABRS', 'AS')))
     add(D([A2, window('W', 'A', 3)], cross('AW', 'A')))
     add(D([A2, window('W', 'A', 3)], cross('AW', 'AW')))
     add(D([A2, B2, window('W', 'A', 2, stride=2)], cross('ABW', 'AB')))
@@ -112,6 +115,9 @@ def fixed_corpus():
           cross('ACG', 'AG', [['MinimumTrials', 5]])))
     add(D([A2, C3, within('G', ['A', 'C'], preds=(('table', [['a0', 'c0'], ['a1', 'c1']]), 'else'))],
           repeat(cross('ACG', 'AG'), [['MinimumTrials', 5]])))
+    # every combination of the crossed derived factor has the same number (2) of source completions, partial round
+    add(D([A2, {'name': 'C', 'levels': ['c0', 'c1', 'c2', 'c3']},
+           within('G', ['C'], preds=(('table', [['c0'], ['c1']]), 'else'))], cross('ACG', 'G', [['MinimumTrials', 3]])))
     # a two-trial preamble over a 3-level factor (3**2 preambles, not 3*2)
     add(D([A3, window('W', 'A', 3)], cross('AW', 'W')))
     # a window wider than the whole sequence (two trials), starting early: shifted source indices run past the grid
